@@ -945,8 +945,11 @@ func (e *env) block(path string, forged, honest []*cand, extra [][]byte) {
 	e.bisected++
 	e.run.Count("candidate_sets_bisected", 1)
 	h := len(forged) / 2
+	was := e.nviol
 	e.block(path, forged[:h], honest, extra)
-	e.block(path, forged[h:], e.neighbours(4), nil)
+	if e.nviol == was {
+		e.block(path, forged[h:], e.neighbours(4), nil)
+	}
 }
 
 // tryBlock hands one set to the mempool, shows the replica a copy of the proposal with one unauthorised candidate
